@@ -110,7 +110,7 @@ def SVal.listify : SVal → List SVal
 def NCfg.hasTrigger (cfg : NCfg) (ev : Nat) : Bool := (alookup ev cfg.events).isSome || cfg.states.hasTrigger ev
 
 /-- the loop of `_check_event_result`; an element that is itself a list goes to `get_state` as a path of joined
-names, which is never registered: ValueError (TypeError when its first element is again a list) -/
+names, which is never registered: ValueError (TypeError when one of its elements is again a list) -/
 def cerLoop (cfg : NCfg) (ev : Nat) : List SVal → PR Bool
   | [] => .ok false
   | .name p :: r =>
@@ -120,8 +120,10 @@ def cerLoop (cfg : NCfg) (ev : Nat) : List SVal → PR Bool
       if !(f.d.ignore.getD cfg.ignore) then
         (if cfg.hasTrigger ev then .err .machineError else .err .attributeError)
       else cerLoop cfg ev r
-  | .cons (.name _) _ :: _ => .err .valueError
-  | _ :: _ => .err .other         -- a list of lists: `states[elem]` with an unhashable key, TypeError
+  | v :: _ =>
+    -- a list: all elements names → never registered, ValueError; a list among them → TypeError
+    -- (`states[elem]` with an unhashable key, or `join` of the error message)
+    if v.elems.all (fun e => match e with | .name _ => true | _ => false) then .err .valueError else .err .other
 
 /-- `HierarchicalMachine._check_event_result` -/
 def checkEventResult (cfg : NCfg) (res : Option Bool) (ev : Nat) (s : NSt) : NR Bool :=
